@@ -56,7 +56,7 @@ def gen_P(rs, n, K, regime):
 
 
 KERNELS = ["linear", "rbf", "sigmoid", "poly", "laplacian", "cosine", "random_sym"]
-METRICS = ["euclidean", "l1", "cosine", "random_metric"]
+METRICS = ["euclidean", "l1", "cosine_dist", "random_metric"]
 
 
 def gen_affinity(rs, n, kind, X=None):
@@ -73,8 +73,8 @@ def gen_affinity(rs, n, kind, X=None):
         return A
     if kind in ("euclidean", "l1"):
         return pairwise_distances(X, metric=kind)
-    if kind == "cosine" and rs.rand() < 0.5:
-        return pairwise_distances(X, metric="cosine")
+    if kind == "cosine_dist":
+        return np.maximum(pairwise_distances(X + 0.1, metric="cosine"), 0.0)
     if kind == "sigmoid":
         return pairwise_kernels(X, metric="sigmoid", gamma=1.0, coef0=-0.5)
     if kind == "rbf":
